@@ -79,7 +79,23 @@ pub fn gen_res(rng: &mut Rng) -> ResScen {
         1 => { let k = rng.below(m); steps.push(format!("f{} __file_close__", k)); kinds.push("root_closes_at_end"); }
         _ => steps.push("0".into()),
     }
-    ResScen { src: format!("main = #{{\n  {}\n}},\nmain\n", steps.join(",\n  ")), kinds }
+    let mut src = format!("main = #{{\n  {}\n}},\nmain\n", steps.join(",\n  "));
+    // a third of the scenarios use directory handles instead of file handles: same ownership rules, other effects
+    if rng.chance(1, 3) {
+        kinds.push("directory_handles");
+        let mut out = String::new();
+        for line in src.lines() {
+            let mut l = line.to_string();
+            // [0x2f78NN, 66, 420] __file_open__  ->  0x2f78NN __directory_read__
+            if let Some(p) = l.find("] __file_open__") { if let Some(q) = l[..p].rfind('[') { let inner: String = l[q + 1..p].to_string(); let path = inner.split(',').next().unwrap_or("0x2f").trim().to_string(); l = format!("{}{} __directory_read__{}", &l[..q], path, &l[p + "] __file_open__".len()..]); } }
+            // [H, N, 0xNN] __file_write__  ->  H __directory_next__
+            while let Some(p) = l.find("] __file_write__") { let Some(q) = l[..p].rfind('[') else { break }; let inner: String = l[q + 1..p].to_string(); let h = inner.split(',').next().unwrap_or("").trim().to_string(); l = format!("{}{} __directory_next__{}", &l[..q], h, &l[p + "] __file_write__".len()..]); }
+            l = l.replace("__file_close__", "__directory_close__").replace("\\File", "\\Dir");
+            out.push_str(&l); out.push('\n');
+        }
+        src = out;
+    }
+    ResScen { src, kinds }
 }
 
 fn resources_in(v: &Value, out: &mut Vec<ResourceId>) {
@@ -90,9 +106,8 @@ fn resources_in(v: &Value, out: &mut Vec<ResourceId>) {
     }
 }
 
-fn effect_kind(e: &NativeEffect) -> &'static str {
-    match e { NativeEffect::FileOpen { .. } => "FileOpen", NativeEffect::FileRead { .. } => "FileRead", NativeEffect::FileWrite { .. } => "FileWrite", NativeEffect::FileFlush { .. } => "FileFlush", NativeEffect::FileClose { .. } => "FileClose", _ => "Other" }
-}
+fn effect_kind(e: &NativeEffect) -> &'static str { crate::mockio::kind_of(e) }
+
 
 pub struct Verdicts {
     pub violations: Vec<(String, String)>,
@@ -117,8 +132,8 @@ pub fn judge(sim: &Sim, mock: &MockState, fates_by_pid: &BTreeMap<ProcessId, Fat
         match ev {
             Event::EffectRequest { process_id, effect } => {
                 let kind = effect_kind(effect);
-                let matches_next = |c: usize| matches!(calls.get(c), Some(Call::Execute { pid, kind: k, rid, .. }) if pid == process_id && *k == kind && *rid == effect.resource_id());
-                match effect.resource_id() {
+                let matches_next = |c: usize| matches!(calls.get(c), Some(Call::Execute { pid, kind: k, rid, .. }) if pid == process_id && *k == kind && *rid == crate::mockio::used_resource(effect));
+                match crate::mockio::used_resource(effect) {
                     None => {
                         // creating effect: always reaches the backend
                         if matches_next(c) {
@@ -133,7 +148,7 @@ pub fn judge(sim: &Sim, mock: &MockState, fates_by_pid: &BTreeMap<ProcessId, Fat
                         } else if owner.get(&r) == Some(process_id) {
                             if matches_next(c) {
                                 bump("owner_operation_reached_backend", &mut v);
-                                if kind == "FileClose" { if let Some(Call::Execute { ok: true, .. }) = calls.get(c) { open.remove(&r); bump("explicit_close_by_owner", &mut v); } }
+                                if crate::mockio::is_close(kind) { if let Some(Call::Execute { ok: true, .. }) = calls.get(c) { open.remove(&r); bump("explicit_close_by_owner", &mut v); } }
                                 c += 1;
                             } else { v.violations.push(("owner-refused".into(), format!("process {} owns open resource {} but its {} did not reach the backend (next backend call: {:?})", process_id, r, kind, calls.get(c)))); }
                         } else {
